@@ -49,7 +49,7 @@ func assigned(name string) lime.Node {
 	return lime.Node{Identity: lime.Identity{Name: name, Domain: "reg.test"}, Instance: "r-" + name}
 }
 
-func body(n int, mixed, intruder bool) func(x *harness.X) {
+func body(n int, mixed, intruder bool, wsIdx int) func(x *harness.X) {
 	return func(x *harness.X) {
 		lib.Reset()
 		s := &st{reg: map[string]string{}, estCb: map[string]string{}}
@@ -116,6 +116,7 @@ func body(n int, mixed, intruder bool) func(x *harness.X) {
 			c := &cli{name: name}
 			s.clients = append(s.clients, c)
 			useInproc := mixed && i == 1
+			useWS := i == wsIdx
 			go func() {
 				var tr lime.Transport
 				if useInproc {
@@ -123,6 +124,8 @@ func body(n int, mixed, intruder bool) func(x *harness.X) {
 					if tr, ok = lib.TryDialInProc(inaddr, 1); !ok {
 						return
 					}
+				} else if useWS {
+					tr, _ = pl.DialWS()
 				} else {
 					tr = lime.NewTCPTransportFromConn(pl.Dial(), nil, false)
 				}
@@ -256,17 +259,19 @@ func final(x *harness.X, res *rt.Result) {
 func main() {
 	opt := rt.Options{NoExplore: true, Horizon: 300 * time.Second, MaxSteps: 100000, BoundAll: true, NoTimerDeviation: true}
 	mk := func(name string, n int, mixed bool, q, t int) harness.Scenario {
-		return harness.Scenario{Name: name, Opt: opt, Quick: q, Thorough: t, Prune: false, Body: body(n, mixed, strings.Contains(name, "intruder")), Final: final}
+		return harness.Scenario{Name: name, Opt: opt, Quick: q, Thorough: t, Prune: false, Body: body(n, mixed, strings.Contains(name, "intruder"), map[bool]int{true: n - 1, false: -1}[strings.Contains(name, "+ws")]), Final: final}
 	}
 	harness.Main(harness.Check{
 		Property: "C17",
 		Level:    "model_checking",
-		Rule:     "2 (thorough also 3) concurrent clients with distinct identities, each sending a message and a request command that the server's handlers answer through their Sender; Register assigns a distinct address per identity; one scenario adds a third connection that never gets a session and carries an object failing typed decoding; handlers compare the envelope they receive with what the owning client sent; transports: TCP over virtual pipes, optionally mixed with the in-process listener on the same server; all schedules within the deviation bound (delay bounding) from the first dial, handshakes included; distinct outcome = distinct observation log",
-		Assume:   []string{"state pruning off", "WebSocket listeners are not explored under the scheduler"},
+		Rule:     "2 (thorough also 3) concurrent clients with distinct identities, each sending a message and a request command that the server's handlers answer through their Sender; Register assigns a distinct address per identity; one scenario adds a third connection that never gets a session and carries an object failing typed decoding; handlers compare the envelope they receive with what the owning client sent; transports: TCP over virtual pipes, optionally mixed with the in-process listener and with WebSocket connections (gorilla, real opening handshake over a virtual pipe) on the same server; all schedules within the deviation bound (delay bounding) from the first dial, handshakes included; distinct outcome = distinct observation log",
+		Assume:   []string{"state pruning off", "the WebSocket listener's HTTP server is not part of the exploration: upgraded connections reach the server through the pipe listener as real websocketTransports (verif hook)"},
 		Scenarios: []harness.Scenario{
 			mk("2clients/pipe", 2, false, 1, 2),
 			mk("2clients/pipe+inproc", 2, true, 1, 1),
 			mk("2clients+intruder/pipe", 2, false, 1, 2),
+			mk("2clients/pipe+ws", 2, false, 1, 2),
+			mk("3clients/pipe+inproc+ws", 3, true, -1, 1),
 			mk("3clients/pipe+inproc", 3, true, -1, 1),
 		},
 	})
